@@ -8,6 +8,7 @@ import (
 	"path/filepath"
 	"strings"
 
+	"github.com/uber/kraken/core"
 	"github.com/uber/kraken/lib/store/base"
 	"github.com/uber/kraken/utils/verifh"
 )
@@ -85,6 +86,14 @@ func c11Exec(t *verifh.T, c verifh.Case) {
 				continue
 			}
 			p := e.GetPath()
+			if op[1] == "cas" {
+				// what the only guard of CAS names says about this name
+				t.One(op[1:], "ok", verifh.Str(p), "valid="+verifh.Bool(core.ValidateSHA256(name) == nil))
+				if core.ValidateSHA256(name) == nil && filepath.IsAbs(dir) && c11Outside(dir, p) {
+					t.PropFail("cas-escapes-store-dir", "go-rel", op[3], verifh.Str(p))
+				}
+				continue
+			}
 			t.One(op[1:], "ok", verifh.Str(p))
 			if op[1] == "local" && filepath.IsAbs(dir) {
 				if c11Outside(dir, p) {
@@ -174,4 +183,28 @@ func c11PathGenerate(tr *verifh.T) {
 	for _, sg := range c11Segs {
 		one("cas", verifh.Str(dirs[0]), verifh.Str(sg))
 	}
+	// names of exactly 64 characters: a hex prefix of every length followed by separators and dot segments
+	for _, nm := range C11MixedNames() {
+		one("cas", verifh.Str(dirs[0]), verifh.Str(nm))
+		tr.Count("cas_mixed_names", 1)
+	}
+}
+
+// C11MixedNames: 64-character names made of k hex characters followed by climbing dot segments (or dots).
+func C11MixedNames() []string {
+	const hexs = "0123456789abcdefABCDEF0123456789abcdef0123456789abcdef0123456789ab"
+	var out []string
+	for k := 0; k <= 63; k++ {
+		for j := 1; j <= 6; j++ {
+			tail := strings.Repeat("/..", j) + "/"
+			if pad := 64 - k - len(tail); pad >= 1 {
+				out = append(out, hexs[:k]+tail+strings.Repeat("x", pad))
+			}
+		}
+		out = append(out, hexs[:k]+strings.Repeat(".", 64-k))
+		if 64-k >= 2 {
+			out = append(out, hexs[:k]+"/"+strings.Repeat("a", 63-k))
+		}
+	}
+	return out
 }
